@@ -44,4 +44,22 @@ PROPS = {
         "explanation": "The theorems are short; the weight is on the correspondence (constructor result, verdict, name of the first "
                        "unbound key, number of predicate invocations), which is what a code change breaks.",
     },
+    "C14": {
+        "subs": ["c14"],
+        "level": "proof",
+        "rule": "operation histories (bind of offered and of arbitrary values, get, retain_keys with key sets built in several "
+                "insertion orders) on HashMap, BTreeMap, StringPositionMap, MatrixPositionMap: exhaustive to depth 3 (quick) / 4 "
+                "(thorough) over per-kind alphabets on small hosts, then random histories of length <= 9; after every step the "
+                "whole key universe is read back; non-trivial = a successful bind followed by at least one further operation",
+        "trusted_base": [KERNEL, EXTRACT, HARNESS, MODELLED + " (Model/BindMaps.v, DomString.v, DomMatrix.v <-> indexing.rs BindMap impls "
+                         "and default retain_keys, string.rs StringPositionMap, matrix.rs MatrixPositionMap)"],
+        "assumptions": COMMON_ASSUMPTIONS + [
+            "HashMap and BTreeMap share one association-list model (only get/bind/retain_keys are observable through the trait)",
+            "the iteration order of the key set handed to retain_keys is read back from an FxHashSet with the same insertion history and given to the model",
+            "a MatrixPositionMap holding a key whose position would be negative panics in get (checked_add_signed); the model marks these '!' and the theorems exclude them (never offered by a host)"],
+        "explanation": "Laws of each map and invariants over all operation histories (c14_*_history) are proved on the model, including "
+                       "that the repaired default retain_keys never panics on a duplicate-free key set containing the start key, whatever "
+                       "its iteration order; the implementation is compared with the model step by step (result of every operation and "
+                       "get over the whole key universe after it) and checked against an independent map-law oracle.",
+    },
 }
